@@ -376,6 +376,35 @@ def run_periods(ctx, i, k, probes):
                 ctx.V("C13:caching-zone-differs-from-wrapped-zone", f"{zid} at {t} (32-day period {t // P}, offset {t % P} ns): caching zone returns {ra}, the zone it wraps has {tuple(rb[:6])} there",
                       {"kind": "periods", "zone": zid, "t": t}, ra, list(rb[:6]))
         ctx.counters["multi_transition_periods"] += multi
+        # few slots, many threads: instants whose 32-day periods share one cache slot (512 periods apart), asked by 8 threads at once
+        if ids.index(zid) < 3 and len(log) > 3:
+            import sys
+            import threading
+            t1 = log[len(log) // 2][0] + 5 * DAY
+            keys_ = [t for t in (t1 + k_ * 512 * P + off_ for k_ in (-2, -1, 0, 1, 2) for off_ in (0, 3 * DAY)) if p_lo * P <= t < p_hi * P - 1]
+            bad_ = []; done_ = [0]
+
+            def hammer(seed_):
+                import random
+                r_ = random.Random(seed_)
+                for _ in range(1500):
+                    t = r_.choice(keys_)
+                    ra = zonewalk.rec_of(cached.get_zone_interval(gen.ns_inst(t)))
+                    done_[0] += 1
+                    if tuple(ra) != tuple(log[bisect.bisect_right(starts, t) - 1]):
+                        bad_.append((t, ra)); return
+            old_si = sys.getswitchinterval()
+            try:
+                sys.setswitchinterval(1e-6)
+                ths = [threading.Thread(target=hammer, args=(rng.randrange(10**9),)) for _ in range(8)]
+                [t_.start() for t_ in ths]; [t_.join(600) for t_ in ths]
+            finally:
+                sys.setswitchinterval(old_si)
+            ctx.counters["slot_hammer_lookups"] += done_[0]; ctx.ev()
+            if bad_:
+                t, ra = bad_[0]
+                ctx.V("C13:caching-zone-differs-under-threads", f"{zid}: with 8 threads asking for instants whose cache periods share one slot, the caching zone returned {ra} for {t}; the zone it wraps has {tuple(log[bisect.bisect_right(starts, t) - 1])}",
+                      {"kind": "periods", "zone": zid, "t": t}, list(ra))
     ctx.sample({"kind": "periods", "zones": len(ids), "periods_per_zone": p_hi - p_lo, "probes_per_period": probes})
 
 
@@ -443,6 +472,43 @@ def run_culture_state(ctx, rounds):
                         if got != want:
                             ctx.V(f"C13:format-ignores-culture-change:{tname}", f"format({tname}, {spec!r}) under the writable current culture {nm!r} gives {got!r} after customisation step {si}; a pattern created afresh for the culture as it is now gives {want!r}",
                                   {"kind": "culture", "culture": nm, "spec": spec}, got, want)
+        # the same through the pattern API: a writable culture that was already used, then customised, answers like an identically customised
+        # culture that was never used before
+        def customise(c, k):
+            f = c.date_time_format
+            if k == 0: d = list(f.day_names); d[1] = "Lundi"; f.day_names = d
+            elif k == 1: m = list(f.month_names); m[2] = "Ventose"; f.month_names = m; f.month_genitive_names = m
+            elif k == 2: f.am_designator = "ante"; f.pm_designator = "post"
+            elif k == 3: d = list(f.abbreviated_day_names); d[1] = "Lu"; f.abbreviated_day_names = d
+            else: f.long_date_pattern = "yyyy MMMM dd"
+        probes = [(T.LocalDatePattern, "dddd d MMMM", LocalDate(2024, 3, 4)), (T.LocalDatePattern, "ddd MMM", LocalDate(2024, 3, 4)), (T.LocalTimePattern, "hh:mm tt", LocalTime(9, 30, 15)),
+                  (T.LocalDateTimePattern, "dddd MMMM d hh tt", LocalDateTime(2024, 3, 4, 21, 30, 15)), (T.LocalDatePattern, "D", LocalDate(2024, 3, 4))]
+        for r in range(max(6, rounds // 4)):
+            nm = rng.choice(names + ["en-US", "fr-FR"])
+            try:
+                used = CultureInfo(nm).clone(); fresh = CultureInfo(nm).clone()
+            except Exception as e:  # noqa: BLE001
+                ctx.exc(e); continue
+            if getattr(used, "is_read_only", False): continue
+            order = rng.sample(range(5), 5)
+            for k in order:
+                for P_, spec, v in probes:            # use it first (whatever is cached is cached now) ...
+                    try: P_.create(spec, used).format(v)
+                    except Exception as e: ctx.exc(e)  # noqa: BLE001,E701
+                try:
+                    customise(used, k); customise(fresh, k)
+                except Exception as e:  # noqa: BLE001
+                    ctx.exc(e); continue
+                for P_, spec, v in probes:            # ... then ask again after the change
+                    ctx.ev(); ctx.counters["mutable_culture_formats"] += 1; ctx.key(("mutable-culture-pattern", P_.__name__, spec, k))
+                    try:
+                        got = P_.create(spec, used).format(v); want = P_.create(spec, fresh).format(v)
+                    except Exception as e:  # noqa: BLE001
+                        ctx.exc(e); continue
+                    if got != want:
+                        ctx.V(f"C13:pattern-ignores-culture-change:{P_.__name__}", f"{P_.__name__}.create({spec!r}, <writable {nm!r} culture, used before and then customised (step {k})>) writes {got!r}; an identically customised culture that "
+                              f"was never used writes {want!r}", {"kind": "culture", "culture": nm, "spec": spec}, got, want)
+                fresh = fresh.clone() if hasattr(fresh, "clone") else fresh      # keep `fresh` unused: work on a new copy next time
     finally:
         CultureInfo.current_culture = saved
     ctx.sample({"kind": "culture-state", "rounds": rounds})
